@@ -98,19 +98,12 @@ func (rt *runtime) newBoundFunctionObject(target *object, this Value, argumentLi
 	return o
 }
 
-// [[Construct]].
+// [[Construct]] (15.3.4.5.2): the target's [[Construct]] with the bound
+// arguments first; a target that has none (a built-in that is not a
+// constructor) throws a TypeError, a bound target is followed.
 func (fn bindFunctionObject) construct(argumentList []Value) Value {
-	obj := fn.target
-	switch value := obj.value.(type) {
-	case nativeFunctionObject:
-		argumentList = append(fn.argumentList, argumentList...)
-		return value.construct(obj, argumentList)
-	case nodeFunctionObject:
-		argumentList = append(fn.argumentList, argumentList...)
-		return obj.construct(argumentList)
-	default:
-		panic(fn.target.runtime.panicTypeError("construct unknown type %T", obj.value))
-	}
+	bound := fn.argumentList[:len(fn.argumentList):len(fn.argumentList)]
+	return fn.target.construct(append(bound, argumentList...))
 }
 
 // nodeFunctionObject.
